@@ -6,19 +6,20 @@ From Coq Require Import List NArith ZArith Bool.
 From VRL Require Import Base.Bytes Base.Value Model.Fuel Proofs.FuelProofs.
 Import ListNotations.
 
-(* format_number: a non-negative scale pads at most `scale` zeros (output grows exactly as requested) *)
+(* format_number: the padding loop runs at most max(scale, 0) times, for every scale (the output grows
+   exactly as requested; a scale <= 0 pads nothing since fix: 77df93e) *)
 Theorem C05_format_number_padding_bounded :
-  forall scale len : Z, (0 <= scale < two64)%Z -> (0 <= len)%Z -> (0 <= pad_iterations scale len <= scale)%Z.
+  forall scale len : Z, (scale < two64)%Z -> (0 <= len)%Z -> (0 <= pad_iterations scale len <= Z.max scale 0)%Z.
 Proof. exact pad_bounded. Qed.
 Print Assumptions C05_format_number_padding_bounded.
 
-(* ...and a negative scale, cast to usize, asks for more than 9.2e18 iterations: the confirmed hang
-   of `format_number(1.5, scale: -1)` *)
-Theorem C05_format_number_negative_scale_refuted :
+(* the code before the fix cast the scale to usize first: a negative scale then asked for more than
+   9.2e18 iterations - the former hang of `format_number(1.5, scale: -1)`, kept as the reason for the guard *)
+Theorem C05_format_number_negative_scale_former_hang :
   forall scale len : Z, (- 9223372036854775808 <= scale < 0)%Z -> (0 <= len <= 64)%Z ->
-  (9223372036854775744 <= pad_iterations scale len)%Z.
+  (9223372036854775744 <= pad_iterations_cast scale len)%Z.
 Proof. exact pad_negative_huge. Qed.
-Print Assumptions C05_format_number_negative_scale_refuted.
+Print Assumptions C05_format_number_negative_scale_former_hang.
 
 (* zip with one argument: given at least one array it stops after at most the shortest length + 1
    rounds ... *)
@@ -27,12 +28,20 @@ Theorem C05_zip_terminates :
 Proof. exact multizip_terminates. Qed.
 Print Assumptions C05_zip_terminates.
 
-(* ... and given no array at all it never stops: the confirmed hang of `zip([])` *)
-Theorem C05_zip_empty_refuted : forall fuel, multizip fuel [] = None.
+(* ... the collect loop itself never stops when there is no array at all (the former hang of `zip([])`),
+   which is why zip_all answers [] for that input since fix: ab82607 ... *)
+Theorem C05_zip_collect_diverges_without_arrays : forall fuel, multizip fuel [] = None.
 Proof. exact multizip_nil_diverges. Qed.
-Print Assumptions C05_zip_empty_refuted.
+Print Assumptions C05_zip_collect_diverges_without_arrays.
+
+(* ... so that zip with one argument terminates for every list of arrays *)
+Theorem C05_zip_all_terminates :
+  forall (its : list (list value)) fuel, min_len its < fuel -> zip_all fuel its <> None.
+Proof. exact zip_all_terminates. Qed.
+Print Assumptions C05_zip_all_terminates.
 
 Example C05_example :
   multizip 4 [[VInt 1; VInt 2; VInt 3]; [VNull; VNull]] = Some [[VInt 1; VNull]; [VInt 2; VNull]]
-  /\ pad_iterations 5 2 = 3%Z /\ pad_iterations (-1) 1 = 18446744073709551614%Z.
+  /\ pad_iterations 5 2 = 3%Z /\ pad_iterations (-1) 1 = 0%Z /\ pad_iterations_cast (-1) 1 = 18446744073709551614%Z
+  /\ zip_all 1 [] = Some [].
 Proof. vm_compute. repeat split; reflexivity. Qed.
